@@ -201,7 +201,17 @@ def base_matrix(seed):
              mseed=s, n_points_min=3),
         dict(kind='wrap', periodic=[0], n_networks=2, blob='bytes', prior='affine', seed=24 + s, mseed=s),
         dict(kind='gauss', prior='Prior', vectorized=True, blob='float', n_batch=5, seed=25 + s, mseed=s),   # dict + vectorised
+        # likelihood pool of three in-process workers with a batch size that is not a multiple of three
+        dict(kind='two', pool='scripted3', n_batch=4, blob='int', seed=26 + s, mseed=s),
     ]
+
+
+def bulk_configs(seed):
+    """Long runs validated as a SNAPSHOT (only the final state is projected; TLC evaluates every state invariant on
+    it): sampler pool whose per-bound proposal cache is refilled several times."""
+    return [dict(kind='gauss', n_batch=50, n_live=40, n_points_min=6, pool=[None, 2], blob='int', seed=27 + seed, mseed=seed,
+                 snapshot_only=True,
+                 history=[['run', dict(n_eff=200, n_like_rel=16000, n_shell=2800, discard_exploration=False)]])]
 
 
 def gen_worlds(n, seed, scratch, n_cells=6, levels=(0, 1, 2, 3), n_bounds=3):
@@ -385,6 +395,7 @@ def check(prop, tier, seed):
         wc, wres = cellworld_configs(seed, scratch, 10 if tier == 'quick' else 120)
         rep.add_tlc(wres, 'CellWorld.tla/simulate')
         cfgs += wc
+        cfgs += bulk_configs(seed)
         rc, rres = resume_every_batch_configs(seed, scratch)
         rep.add_tlc(rres, 'CellWorld.tla/simulate (resume worlds)')
         cfgs += rc
